@@ -63,6 +63,9 @@ CHECKS = {
   "C09": ("Hypothesis vs reference model (ola_ref: the defining windowed hop-shifted sum in Fractions), round trip (blocks -> overlap-add with constructed sum-to-one windows), recorded-wiring oracle for the stft wrapper",
           "overlap_add.list over all block counts incl. 0, hop <= size, seven window kinds (negative and zero entries), normalise on/off/default, given or detected size and six block container kinds is compared sample by sample with the defining sum and the stated gain; signals blocked by Stream.blocks and overlap-added with windows constructed to sum to one are reconstructed exactly on fully covered samples; stft: blocks reaching the user function == window x block, stage order, ola_ options stripped and forwarded, build/call-time option split and override, calling styles, refusals. Sampled.",
           "Q samples; no-window gain is the code's double 1/ceil(size/hop); only the pure-Python overlap_add.list strategy (numpy absent).", "3/C09"),
+  "C17": ("Hypothesis over (control history, schedule) pairs driving a deterministic baton scheduler that owns every synchronisation point (and, in the line tier, every source line of lazy_io.py) with a fake PyAudio backend; deadlock = state with no enabled thread",
+          "AudioIO/AudioThread run unmodified on real threads of which exactly one holds the baton; the generated schedule chooses the next thread at every lock/event/thread operation and backend call (quick: 6000 + 1500 line-level schedules; thorough: 60000 + 30000), for 1-3 players (finite and endless audio), pause/play/stop/spawn histories, close / with / terminate, wait on/off. Safety: chunks of exactly chunk_size frames concatenating to a prefix (the whole, if never stopped and waited) of the zero-padded audio. Shutdown: close returns under every explored schedule (a hang is a detected deadlock state or a step-bound overrun, not a timeout), streams closed once, backend terminated once, no live player, play raises. Bounded, sampled exploration of schedules.",
+          "Fake backend and scheduler-aware Lock/Event replace pyaudio/_portaudio and lazy_io.threading from outside; line (not bytecode) granularity; bounded liveness (20000 steps); fair continuation after the generated schedule is used up; control calls come from the main thread only.", "3/C17"),
 }
 NOT_BUILT = "check not built yet in this session (planned in DESIGN.md section 3); no claim is made until it is"
 
